@@ -14,7 +14,7 @@ NOT_APPLICABLE = []
 
 # properties whose checks are reviewed and claimed in MANIFEST.json; packages
 # of other properties may exist under props/ while they are being built
-CLAIMED = ["C01", "C02", "C03", "C04", "C05", "C06", "C07", "C08", "C09", "C10", "C11", "C13", "C14", "C15", "C16", "C17", "C18", "C19", "C20"]
+CLAIMED = ["C01", "C02", "C03", "C04", "C05", "C06", "C07", "C08", "C09", "C10", "C11", "C12", "C13", "C14", "C15", "C16", "C17", "C18", "C19", "C20"]
 
 PROPS = {}
 for f in sorted(glob.glob(os.path.join(ROOT, "props", "*", "prop.json"))):
